@@ -340,7 +340,11 @@ impl<'a> YamlEmitter<'a> {
                     write!(self.writer, ":")?;
                     self.emit_val(true, v)?;
                 } else {
-                    self.emit_node(k)?;
+                    // A simple key cannot be a block scalar.
+                    let multiline_strings = std::mem::replace(&mut self.multiline_strings, false);
+                    let res = self.emit_node(k);
+                    self.multiline_strings = multiline_strings;
+                    res?;
                     write!(self.writer, ":")?;
                     self.emit_val(false, v)?;
                 }
